@@ -222,3 +222,45 @@ func StepRefinesAlt(c *cpualt.CPU, ram, ram2 *[1 << 24]byte, op byte) (impl, spe
 	impl = AbsAlt(c)
 	return
 }
+
+// ---- C12: callbacks ----
+// A registered program-counter callback runs exactly once per Step fetched at its address (and nothing else is
+// called for opcodes other than WDM); the WDM callback receives exactly the WDM operand byte.
+
+//@ lemma StepOnPC65 property C12
+//@   harness flat65 cpu=c ram=ram op=op
+//@   nosafety
+//@   requires has(c.OnPC, uint32(c.RK)<<16|uint32(c.PC)) && !isnil(c.OnPC[uint32(c.RK)<<16|uint32(c.PC)])
+//@   ensures op != 0x42 ==> ncalls("func.call") == 1
+//@   ensures op != 0x42 ==> callarg("func.call", 0) == old(c.OnPC[uint32(c.RK)<<16|uint32(c.PC)])
+
+func StepOnPC65(c *cpu65c816.CPU, ram *[1 << 24]byte, op byte) { c.Step() }
+
+//@ lemma StepOnPCAlt property C12
+//@   harness flatalt cpu=c ram=ram op=op
+//@   nosafety
+//@   requires has(c.OnPC, uint32(c.RK)<<16|uint32(c.PC)) && !isnil(c.OnPC[uint32(c.RK)<<16|uint32(c.PC)])
+//@   ensures op != 0x42 ==> ncalls("func.call") == 1
+//@   ensures op != 0x42 ==> callarg("func.call", 0) == old(c.OnPC[uint32(c.RK)<<16|uint32(c.PC)])
+
+func StepOnPCAlt(c *cpualt.CPU, ram *[1 << 24]byte, op byte) { c.Step() }
+
+//@ lemma StepWDM65 property C12
+//@   harness flat65 cpu=c ram=ram op=op
+//@   ops 42
+//@   nosafety
+//@   requires !has(c.OnPC, uint32(c.RK)<<16|uint32(c.PC)) && !isnil(c.OnWDM)
+//@   ensures ncalls("func.call") == 1 && callarg("func.call", 0) == old(c.OnWDM)
+//@   ensures callarg("func.call", 1) == old(ram[uint32(c.RK)<<16|uint32(c.PC+1)]) && c.WDM == old(ram[uint32(c.RK)<<16|uint32(c.PC+1)])
+
+func StepWDM65(c *cpu65c816.CPU, ram *[1 << 24]byte, op byte) { c.Step() }
+
+//@ lemma StepWDMAlt property C12
+//@   harness flatalt cpu=c ram=ram op=op
+//@   ops 42
+//@   nosafety
+//@   requires !has(c.OnPC, uint32(c.RK)<<16|uint32(c.PC)) && !isnil(c.OnWDM)
+//@   ensures ncalls("func.call") == 1 && callarg("func.call", 0) == old(c.OnWDM)
+//@   ensures callarg("func.call", 1) == old(ram[uint32(c.RK)<<16|uint32(c.PC+1)]) && c.WDM == old(ram[uint32(c.RK)<<16|uint32(c.PC+1)])
+
+func StepWDMAlt(c *cpualt.CPU, ram *[1 << 24]byte, op byte) { c.Step() }
